@@ -279,7 +279,7 @@ func init() {
 }
 
 // jsonHostile are valid-UTF-8 strings aimed at the JSON layer.
-var jsonHostile = []string{"", " ", `"min":`, `"min":"max":`, `{"left":1}`, "[1,2]", "null", "true", "5", "5.0", "1e5", "-0", "*", "?", "a*b", "/", "//", "/x/", "/*/", "é", "日本", "\u2028", "\\", "\\\\", "a\\", "\t", "\n", "<>&", "\U0001F600", "\ufffd", "{", "}", "[", "]", ",", ":"}
+var jsonHostile = []string{"", " ", `"min":`, `"min":"max":`, `{"left":1}`, "[1,2]", "null", "true", "5", "5.0", "1e5", "-0", "*", "?", "a*b", "/", "//", "/x/", "/*/", "/foo bar/", "/x y/ z", "/ /", "/a b/c d/", "a /b c/", "w* x", "? ?", "é", "日本", "\u2028", "\\", "\\\\", "a\\", "\t", "\n", "<>&", "\U0001F600", "\ufffd", "{", "}", "[", "]", ",", ":"}
 
 func TestC12(t *testing.T) {
 	cfg := report.Load()
